@@ -379,3 +379,21 @@ def through_closure(parent, closure_body, op_or_path):
     if inner is None:
         return None
     return _cancel(inner + rest[1:])
+
+
+def guard_variant(b, g):
+    """variant index selected by a guard (switch_bb, edge_target, label, tested) of guards_of on a discriminant"""
+    sw, _, lab, _ = g
+    if lab.startswith('sw:'):
+        return int(lab[3:])
+    listed = {int(v) for v, _ in b.blocks[sw]['term']['targets']}
+    rest = [k for k in (0, 1) if k not in listed]
+    return rest[0] if len(rest) == 1 else None
+
+
+def guarded_by_variant(b, site_bb, paths, variant):
+    """the block runs only when the enum value at one of `paths` (deep paths) has the given variant index"""
+    for g in guards_of(b, site_bb):
+        if g[3][0] == 'discr' and deep_path(b, g[3][1]) in paths and guard_variant(b, g) == variant:
+            return True
+    return False
